@@ -125,6 +125,18 @@ Theorem C13_partial_needs_no_restamp :
 Proof. split; [apply history_hyps_b_ok; vm_compute; reflexivity | violated 1%nat ops_restamped_grant_loses_period]. Qed.
 Print Assumptions C13_partial_needs_no_restamp.
 
+(* the same defect through the user's ROLE set (RebuildRoles): role r2 reaches the user from a role() grant of d2 (stamped 2)
+   and from an admin grant (stamped 6); d2 is deleted, the rebuild keeps r2 but re-stamps it 6; when r2 loses channel A the
+   period of A through r2 is [6,8), which does not contain the client's position 4 (found by the thorough tier's
+   granted_periods_cover monitor; reproduced on the real database) *)
+Definition ops_restamped_role_loses_period : list sop :=
+  [SPut 2 [3] [] [2]; SRChans 2 [2]; SPut 1 [2] [] []; SPull 0; SPut 1 [3] [] []; SURoles [2]; SDel 2; SRChans 2 []; SPull 0].
+
+Theorem C13_partial_needs_no_restamp_roles :
+  history_hyps_sel true true false true ops_restamped_role_loses_period /\ violates ops_restamped_role_loses_period.
+Proof. split; [apply history_hyps_b_ok; vm_compute; reflexivity | violated 1%nat ops_restamped_role_loses_period]. Qed.
+Print Assumptions C13_partial_needs_no_restamp_roles.
+
 (* granted_periods_cover cannot be strengthened to "exactly": for a channel a current role holds the function returns
    one open period per channel of the role, stamped with THAT channel's sequence and not intersected with the time the
    role was held (auth/user.go: "for _, channelInfo := range currentRole.CollectionChannels(...)").  Role r1 ("!" at 1,
